@@ -105,6 +105,20 @@ def recipes(n, shape, rng):
         add("A@x", lambda: (A @ x, AN @ X))
     else:
         add("reject:A@x", lambda: ("must-raise", lambda: A @ x))
+    # element-wise matrix constraints (C10): one constraint per entry, row-major, whatever the memory layout of the array
+    def con_case(build, want):
+        def f():
+            cons = build()
+            got = np.array([float(k.expr.evaluate(vals)) for k in cons])
+            return ("np", got, np.asarray(want, dtype=float).reshape(-1))
+        return f
+    NF = np.asfortranarray(BN)
+    NT = np.ascontiguousarray(BN.T).T          # same values as BN, column-major strides
+    add("con:A<=N", con_case(lambda: A <= BN, AN - BN)); add("con:A<=N(F-order)", con_case(lambda: A <= NF, AN - BN))
+    add("con:A>=N(transposed view)", con_case(lambda: A >= NT, BN - AN) if False else con_case(lambda: A >= NT, AN - BN))
+    add("con:A<=B", con_case(lambda: A <= B_, AN - BN)); add("con:A<=s", con_case(lambda: A <= s, AN - s))
+    add("con:(A+B)<=N", con_case(lambda: (A + B_) <= BN, AN + BN - BN)); add("con:x<=c", con_case(lambda: x <= cv, X - cv))
+    add("con:x>=y", con_case(lambda: x >= y, X - Y))
     add("reject:A+B.T" if r != c else "A+B.T", (lambda: ("must-raise", lambda: A + B_.T)) if r != c else (lambda: (A + B_.T, AN + BN.T)))
     return R, vals
 
